@@ -48,8 +48,8 @@ def check_all(root, base):
 base = base_keys()
 summary = {}
 for pid in sys.argv[1:]:
-    wt = "/tmp/wt_" + pid
-    for d in sorted(glob.glob("/tmp/seed_%s/[0-9]*" % pid)):
+    wt = os.environ.get("WTPREFIX", "/tmp/wt_") + pid
+    for d in sorted(glob.glob(os.environ.get("SEEDPREFIX", "/tmp/seed_") + "%s/[0-9]*" % pid)):
         k = os.path.basename(d)
         name = "%s/%s" % (pid, k)
         sh("git checkout -- . && git clean -fdq", wt)
@@ -71,4 +71,4 @@ for pid in sys.argv[1:]:
                 print("     ", p, kx[:160])
             for e in v["errors"][:2]:
                 print("     ", p, "ERR", e[:160])
-json.dump(summary, open("/tmp/seedeval_%s.json" % "_".join(sys.argv[1:])[:40], "w"), indent=1)
+json.dump(summary, open(os.environ.get("SEEDOUT", "/tmp/seedeval_%s.json" % "_".join(sys.argv[1:])[:40]), "w"), indent=1)
